@@ -432,6 +432,110 @@ theorem sparsity_rows (ids : List Nat) (nSensors : Nat) (defs : Defs) (samples :
       rw [(sortIds_perm ids).length_eq] at hlt
       exact ⟨by omega, by omega, by omega, by omega⟩
 
+/-- **Reading the answer back (`_condense_results`).**  For a parameter vector of the right length: the returned
+`cf_poses` has one entry per sample, entry 0 is the identity pose `Pose()` ("the frame of the first sample"), entry
+`i ≥ 1` is built from the 6 parameters at offset `6·n_bs + 6·(i−1)`; the pose stored under base-station id `b` is built
+from the 6 parameters at offset `6k` where `k` is the rank of `b` among the sorted ids — so poses are attributed to
+the right ids whatever the ids are; ids that are not in the system get no pose. -/
+theorem condense_layout {α P : Type} (toPose : List α → P) (ident : P) (ids : List Nat) (nSamples nSensors : Nat)
+    (defs : Defs) (hd : mkDefs ids nSamples nSensors = .ok defs) (hn : ids.Nodup) (x : List α)
+    (hx : x.length = 6 * ids.length + 6 * (nSamples - 1)) :
+    ∃ bs cfs, condense toPose ident defs x = .ok (bs, cfs) ∧ cfs.length = nSamples ∧ cfs[0]? = some ident ∧
+      (∀ i, 1 ≤ i → i < nSamples → cfs[i]? = some (toPose ((x.drop (6 * ids.length + 6 * (i - 1))).take 6))) ∧
+      (∀ k b, (sortIds ids)[k]? = some b → bs.get? b = some (toPose ((x.drop (6 * k)).take 6))) ∧
+      (∀ b, b ∉ ids → bs.get? b = none) := by
+  rcases Nat.eq_zero_or_pos nSamples with h0 | hpos
+  · subst h0; rw [(layout_length ids 0 nSensors).1 rfl] at hd; cases hd
+  obtain ⟨defs', hd', e1, e2, e3, _, _, e6, e7⟩ := (layout_length ids nSamples nSensors).2 hpos
+  rw [hd] at hd'; cases hd'
+  obtain ⟨bss, cfs, hps⟩ := paramsToStruct_ok defs x (by rw [e7]; exact hx)
+  obtain ⟨_, hbl, hcl, hbs, _⟩ := paramsToStruct_rows defs x bss cfs hps
+  have hS := (sortIds_perm ids).nodup_iff.mpr hn
+  have hSlen : (sortIds ids).length = ids.length := (sortIds_perm ids).length_eq
+  obtain ⟨cfPoses, hcf, hcflen, hcfrows⟩ := condenseCfs_ok toPose cfs (List.range (Gen.C09.condenseCfCount defs.nCfs))
+    (by intro i hi; simp only [List.mem_range, Gen.C09.condenseCfCount] at hi; omega)
+  obtain ⟨bsPoses, hbsd, hba, hbb⟩ := condenseBs_spec toPose defs (sortIds ids) hS
+    (by intro k; rw [e6]; exact (bsmap_sorted ids hn).2.2.2 k) bss 0 [] (by omega)
+  refine ⟨bsPoses, ident :: cfPoses, by simp only [condense, hps, hcf, hbsd], ?_, rfl, ?_, ?_, ?_⟩
+  · simp only [List.length_cons, hcflen, List.length_range, Gen.C09.condenseCfCount]; omega
+  · intro i h1 h2
+    obtain ⟨j, rfl⟩ : ∃ j, i = j + 1 := ⟨i - 1, by omega⟩
+    simp only [List.getElem?_cons_succ, Nat.add_sub_cancel]
+    obtain ⟨row, hrow, hl⟩ := hcfrows j j (List.getElem?_range (by simp only [Gen.C09.condenseCfCount]; omega))
+    rw [paramsToStruct_cfs defs x bss cfs hps j (by omega)] at hrow
+    simp only [Option.some.injEq] at hrow
+    rw [hl, ← hrow, e1]
+    rfl
+  · intro k b hk
+    have hklt : k < defs.nBss := by
+      have := (List.getElem?_eq_some_iff.mp hk).1; omega
+    have hrow := hbs k hklt
+    have := hba k _ b hrow (by simpa using hk)
+    rw [this]; rfl
+  · intro b hb
+    rw [hbb b]
+    · rfl
+    · intro j _ e
+      simp only [Nat.zero_add] at e
+      exact hb ((sortIds_perm ids).mem_iff.mp (List.mem_of_getElem? e))
+
+/-- **Writing the initial guess (`_populate_initial_guess` + `np.hstack`).**  `x0` has `6·n_bs + 6·(n_cf−1)` entries; the 6
+parameters of the base station with id `b` are written at offset `6k`, `k` the rank of `b` among the sorted ids (whatever
+the order of the `bs_poses` dict); CF pose `i ≥ 1` is written at offset `6·n_bs + 6·(i−1)`; CF pose 0 is not written
+anywhere (it is the origin).  Together with `residual_row_reads` and `condense_layout`: writer, objective function and
+reader agree on one layout. -/
+theorem initial_guess_layout {α P : Type} (toParams : P → List α) (zero : α) (h6 : ∀ p, (toParams p).length = 6)
+    (bsPoses : Dict P) (hn : bsPoses.keys.Nodup) (nSamples nSensors : Nat) (defs : Defs)
+    (hd : mkDefs bsPoses.keys nSamples nSensors = .ok defs) (cfPoses : List P) (hcf : cfPoses.length ≤ nSamples) :
+    ∃ x0, initialX0 toParams zero defs bsPoses cfPoses = .ok x0 ∧ x0.length = 6 * bsPoses.length + 6 * (nSamples - 1) ∧
+      (∀ k b p, (sortIds bsPoses.keys)[k]? = some b → (b, p) ∈ bsPoses → (x0.drop (6 * k)).take 6 = toParams p) ∧
+      (∀ i p, 1 ≤ i → cfPoses[i]? = some p → (x0.drop (6 * bsPoses.length + 6 * (i - 1))).take 6 = toParams p) := by
+  rcases Nat.eq_zero_or_pos nSamples with h0 | hpos
+  · subst h0; rw [(layout_length _ 0 nSensors).1 rfl] at hd; cases hd
+  obtain ⟨defs', hd', e1, e2, e3, _, e5, _, _⟩ := (layout_length bsPoses.keys nSamples nSensors).2 hpos
+  rw [hd] at hd'; cases hd'
+  have hkl : bsPoses.keys.length = bsPoses.length := Dict.length_keys bsPoses
+  obtain ⟨_, hperm, hmap, _⟩ := bsmap_sorted bsPoses.keys hn
+  have hSlen : (sortIds bsPoses.keys).length = bsPoses.keys.length := hperm.length_eq
+  have hw0 : ∀ (n : Nat) (r : List α), r ∈ List.replicate n (List.replicate 6 zero) → r.length = 6 := by
+    intro n r hr; rw [(List.mem_replicate.mp hr).2]; simp
+  obtain ⟨pb, hpb, hpbl, hpbw, hpba, _⟩ := fillBs_spec toParams 6 h6 defs
+    (by intro b b' k h1 h2
+        rw [e5] at h1 h2
+        have a1 := (hmap b k).mp h1
+        have a2 := (hmap b' k).mp h2
+        rw [a1] at a2; exact Option.some.inj a2)
+    bsPoses hn (List.replicate defs.nBss (List.replicate 6 zero)) (hw0 _)
+    (by intro b hb
+        obtain ⟨k, hk⟩ := List.getElem?_of_mem (hperm.mem_iff.mpr hb)
+        refine ⟨k, by rw [e5]; exact (hmap b k).mpr hk, ?_⟩
+        have := (List.getElem?_eq_some_iff.mp hk).1
+        simp only [List.length_replicate]; omega)
+  obtain ⟨pc, hpc, hpcl, hpcw, hpca, _⟩ := fillCfs_spec toParams 6 h6 (cfPoses.drop 1) 0
+    (List.replicate defs.nCfsInParams (List.replicate 6 zero)) (hw0 _)
+    (by simp only [List.length_drop, List.length_replicate]; omega)
+  have hlb := length_flatten_uniform 6 pb hpbw
+  have hlc := length_flatten_uniform 6 pc hpcw
+  simp only [List.length_replicate] at hpbl hpcl
+  refine ⟨pb.flatten ++ pc.flatten, ?_, ?_, ?_, ?_⟩
+  · simp only [initialX0]
+    rw [show Gen.C09.nParamsPerBs = 6 from rfl, show Gen.C09.nParamsPerCf = 6 from rfl, hpb, hpc]
+  · simp only [List.length_append, hlb, hlc, hpbl, hpcl]; omega
+  · intro k b p hk hmem
+    have hidx := (hmap b k).mpr hk
+    have hrow := hpba b p k hmem (by rw [e5]; exact hidx)
+    have hklt : k < pb.length := (List.getElem?_eq_some_iff.mp hrow).1
+    rw [List.drop_append_of_le_length (by rw [hlb]; omega), List.take_append_of_le_length (by rw [List.length_drop, hlb]; omega),
+      Nat.mul_comm 6 k]
+    exact flatten_window 6 pb hpbw k _ hrow
+  · intro i p hi hp
+    obtain ⟨j, rfl⟩ : ∃ j, i = j + 1 := ⟨i - 1, by omega⟩
+    have hrow := hpca j p (by rw [List.getElem?_drop, Nat.add_comm]; exact hp)
+    simp only [Nat.zero_add, Nat.add_sub_cancel] at hrow ⊢
+    rw [show 6 * bsPoses.length + 6 * j = pb.flatten.length + j * 6 by rw [hlb, hpbl, e1, hkl]; omega, List.drop_append,
+      List.drop_of_length_le (by omega), Nat.add_sub_cancel_left, List.nil_append]
+    exact flatten_window 6 pc hpcw j _ hrow
+
 section T4dep
 variable {α β : Type}
 
